@@ -104,7 +104,9 @@ def run_histories(check, tier, clauses):
         if all(e["obj"] in (0, 1) for e in h):
             per_input.setdefault(h[0]["inp"], []).append(h)
     cap = 12 if tier == "quick" else 80
-    simple = [h for i in sorted(per_input) for h in per_input[i][:cap]]
+    has_other = lambda h: any(e["op"] == "other" for e in h)
+    simple = [h for i in sorted(per_input) for h in [x for x in per_input[i] if not has_other(x)][:cap]]
+    simple += [h for i in sorted(per_input) for h in [x for x in per_input[i] if has_other(x)][:cap // 2]]
     seeds = (1, 2, 3, 4, 5, 6, 7, 8, "random") if tier == "quick" else tuple(range(1, 25)) + ("random",)
     with ThreadPoolExecutor(max_workers=common.NCPU) as ex:
         outs = list(ex.map(lambda hs: worker(simple, hs), seeds))
